@@ -14,6 +14,10 @@ use std::{
 #[cfg_attr(docsrs, doc(cfg(feature = "serde1")))]
 pub mod serde;
 
+/// The longest timeout tracked for a request; longer deadlines are clamped to it, since timers
+/// cannot be set arbitrarily far in the future.
+pub(crate) const MAX_TIMEOUT: Duration = Duration::from_secs(60 * 60 * 24 * 365);
+
 /// Extension trait for [Instants](Instant) in the future, i.e. deadlines.
 pub trait TimeUntil {
     /// How much time from now until this time is reached.
